@@ -137,6 +137,10 @@ def drive(mod, prop, tier, seed, budget_s, max_runs, selftest_n, nworkers=None, 
     cov = mod.aggregate(list(summaries.values()), tier)
     cov['slowest_runs'] = [[round(w, 1), i] for w, i in walls]
     cov['determinism_selftest'] = selftest
+    if hasattr(mod, 'post_check'):
+        msg = mod.post_check(cov)
+        if msg:
+            harness_errors.append(msg)
     cov['runs_per_hour'] = int(len(summaries) / max(wall, 1e-6) * 3600)
     cov['workers'] = nworkers
     evidence = dict(property_id=prop, tier=tier, seed=seed, level='exploration', coverage=cov,
